@@ -543,7 +543,9 @@ class CSemantics:
 
     def check_condition(self, condition):
         condition = self.pointer(condition)
-        if not condition.typ.is_integer:
+        # Scalars and pointers are compared to zero in their own type.
+        # Converting to int first would turn 0.5 or 1 << 32 into zero.
+        if not (condition.typ.is_scalar or condition.typ.is_pointer):
             condition = self.coerce(condition, self.get_type(["int"]))
         return condition
 
@@ -744,8 +746,7 @@ class CSemantics:
 
     def on_ternop(self, lhs, op, mid, rhs, location):
         """Handle ternary operator 'a ? b : c'"""
-        lhs = self.pointer(lhs)
-        lhs = self.coerce(lhs, self.int_type)
+        lhs = self.check_condition(lhs)
         # TODO: For now, we use the common type of b and c as the result
         # But is this correct?
         mid = self.pointer(mid)
